@@ -1,7 +1,7 @@
 # -*- coding: utf-8 -*-
 """Driver: record score tables from the real constructors (runs under the repository's python).
 
-argv[1] = JSON job: {"out": path, "tables": [header...], "rows": [[t, [outer idx...]], ...],
+argv[1] = path of a JSON job file: {"out": path, "tables": [header...], "rows": [[t, [outer idx...]], ...],
                      "nsamples": k, "seed": n, "c09": bool}
 Writes one JSON object {"rows": [...]} with, per row, the observed scores of every inner
 combination (tenths; -1 for None) and a few sample strings. Nothing here is trusted by the
@@ -37,7 +37,7 @@ def tenth(x):
 
 
 def main():
-    job = json.loads(sys.argv[1])
+    job = json.load(open(sys.argv[1]))
     rnd = random.Random(job.get("seed", 0))
     tables = job["tables"]
     out_rows = []
